@@ -123,7 +123,8 @@ def stepD (d : D) : List String → D × String
     | some h2 =>
       let ft := (d.s.g.filter d.isForeign).map (fun t => [t.1, t.2.1, t.2.2])
       let xs := (sortBy lexLt ft).map (fun t => ".".intercalate (t.map toString))
-      (d, s!"L2={showOut (step h2 d.s .iter).2} N2={showOut (step h2 d.s .len).2} F2=" ++
+      (d, s!"L2={showOut (step h2 d.s .iter).2} N2={showOut (step h2 d.s .len).2} " ++
+            s!"G2={showOut (step h2 d.s (.getItem 0)).2};{showOut (step h2 d.s (.getItem (-1))).2} F2=" ++
             (if xs.isEmpty then "-" else ";".intercalate xs))
     | none => (d, "bad-op")
   | ["t", a, b, c] =>
